@@ -120,8 +120,33 @@ pub fn minimise_world(check: &str, v: &Violation, secs: u64) -> Violation {
       }
     }
   }
-  // characters of short schemas / documents
-  for key in ["schema", "json", "csv"] {
+  // characters of each schema line (line structure is kept, so that the known-finding predicates,
+  // which read rules line by line, see the same rules the parser sees)
+  if let Some(s) = get_text(&w, "schema") {
+    let mut lines: Vec<String> = s.lines().map(|l| l.to_string()).collect();
+    if s.len() <= 600 {
+      for li in 0..lines.len() {
+        let cs: Vec<char> = lines[li].chars().collect();
+        if cs.len() < 2 {
+          continue;
+        }
+        let base = w.clone();
+        let snapshot = lines.clone();
+        let mut pred = |x: &[char]| {
+          let mut ls = snapshot.clone();
+          ls[li] = x.iter().collect::<String>();
+          let mut c = base.clone();
+          set_text(&mut c, "schema", &(ls.join("\n") + "\n"));
+          same_failure(check, &c, &class, &sig, wd)
+        };
+        let small = ddmin(cs, &mut budget, &mut pred);
+        lines[li] = small.iter().collect::<String>();
+      }
+      set_text(&mut w, "schema", &(lines.join("\n") + "\n"));
+    }
+  }
+  // characters of short documents
+  for key in ["json", "csv"] {
     if let Some(s) = get_text(&w, key) {
       let cs: Vec<char> = s.chars().collect();
       if cs.len() > 1 && cs.len() <= 400 {
@@ -365,6 +390,95 @@ pub fn generic_self_application(schema: &str) -> bool {
   parse_rules(schema).iter().any(|r| r.self_applied)
 }
 
+/// A generic rule instantiated with an argument that (directly, or through the rules it names)
+/// instantiates the same generic rule again: g<g<int>>, or p = g<q>, q = g<~r>.
+pub fn generic_reentrancy(schema: &str) -> bool {
+  if generic_self_application(schema) {
+    return true;
+  }
+  // generic rule names
+  let mut generics: Vec<String> = Vec::new();
+  let mut bodies: BTreeMap<String, String> = BTreeMap::new();
+  for line in schema.lines() {
+    let line = line.split(';').next().unwrap_or("");
+    if let Some(p) = line.find('=') {
+      let lhs = line[..p].trim_end_matches('/').trim();
+      let name = lhs.split('<').next().unwrap_or("").trim().to_string();
+      if lhs.contains('<') && !name.is_empty() {
+        generics.push(name.clone());
+      }
+      if !name.is_empty() {
+        bodies.entry(name).or_default().push_str(&line[p + 1..]);
+      }
+    }
+  }
+  // does `text` apply generic g (g<...>) anywhere, following rule names up to a small depth?
+  fn applies(bodies: &BTreeMap<String, String>, text: &str, g: &str, depth: usize) -> bool {
+    let pat = format!("{}<", g);
+    if text.contains(&pat) {
+      return true;
+    }
+    if depth == 0 {
+      return false;
+    }
+    for (name, body) in bodies {
+      if name != g && contains_ident(text, name) && applies(bodies, body, g, depth - 1) {
+        return true;
+      }
+    }
+    false
+  }
+  for g in &generics {
+    let pat = format!("{}<", g);
+    for body in bodies.values() {
+      let mut from = 0;
+      while let Some(p) = body[from..].find(&pat) {
+        let start = from + p + pat.len();
+        // argument list up to the matching '>'
+        let mut depth = 1;
+        let mut end = start;
+        for (i, c) in body[start..].char_indices() {
+          match c {
+            '<' => depth += 1,
+            '>' => {
+              depth -= 1;
+              if depth == 0 {
+                end = start + i;
+                break;
+              }
+            }
+            _ => {}
+          }
+        }
+        if end > start && applies(&bodies, &body[start..end], g, 4) {
+          return true;
+        }
+        from = start;
+      }
+    }
+  }
+  false
+}
+
+fn contains_ident(text: &str, name: &str) -> bool {
+  let is_id = |c: char| c.is_ascii_alphanumeric() || "@_$-.".contains(c);
+  let mut from = 0;
+  while let Some(p) = text[from..].find(name) {
+    let a = from + p;
+    let b = a + name.len();
+    let before_ok = a == 0 || !is_id(text[..a].chars().last().unwrap());
+    let after_ok = b >= text.len() || !is_id(text[b..].chars().next().unwrap());
+    if before_ok && after_ok {
+      return true;
+    }
+    from = a + 1;
+    while !text.is_char_boundary(from) {
+      from += 1;
+    }
+  }
+  false
+}
+
 pub fn schema_of(v: &Violation) -> String {
   v.world["schema"]["text"].as_str().unwrap_or("").to_string()
 }
@@ -375,10 +489,33 @@ pub fn predicate(name: &str, v: &Violation) -> bool {
   match name {
     "unguarded_rule_cycle" => unguarded_rule_cycle(&schema),
     "generic_self_application" => generic_self_application(&schema),
+    "generic_reentrancy" => generic_reentrancy(&schema),
     "cycle_or_self_application" => unguarded_rule_cycle(&schema) || generic_self_application(&schema),
-    "uri_prelude" => schema.contains("uri"),
+    "uri_prelude_panic_in_uriparse" => schema.contains("uri") && v.detail.contains("uriparse-"),
+    "abnf_control" => schema.contains(".abnf"),
     "time_prelude" => schema.contains("time"),
     "always" => true,
     _ => false,
   }
+}
+
+/// Cheap grouping key computed on the raw (unminimised) world: violations are minimised per group
+/// (the smallest worlds of each), not one by one. The key contains the value of every known-finding
+/// predicate, so a crash on a world where no known predicate holds is never grouped with one where it does.
+pub fn pre_key(v: &Violation) -> String {
+  let schema = schema_of(v);
+  let sig = if v.class == "panic" { v.signature.splitn(2, ':').nth(1).unwrap_or("").to_string() } else { String::new() };
+  format!(
+    "{}|{}|cyc={} gen={} abnf={} uri={}",
+    v.class,
+    sig,
+    unguarded_rule_cycle(&schema) as u8,
+    generic_reentrancy(&schema) as u8,
+    schema.contains(".abnf") as u8,
+    (schema.contains("uri") && v.detail.contains("uriparse-")) as u8
+  )
+}
+
+pub fn world_size(v: &Violation) -> usize {
+  World::from_json(&v.world).size()
 }
